@@ -47,7 +47,7 @@ def cases(draw, tier):
     else:
         sc = draw(gen.state_case(types=[mode], n=(n, n), nh=(1, 3), na=(1, 2), scales=[0.05, 0.5, 2.0, 8.0], bound=100.0))
         c["state"] = sc
-    c["idx"] = draw(gen.index_list(n, 1, 6))
+    c["idx"] = draw(gen.index_list(n, 1, 6)) if draw(st.integers(0, 14)) else draw(gen.index_list(n, 257, 400))   # occasionally a large batch of outcomes
     c["extras"] = draw(st.booleans())
     c["layout"] = draw(st.sampled_from(["contiguous", "contiguous", "transposed_view"]))   # explicit operands as a non-contiguous view
     c["basis2"] = draw(gen.basis_string(n, alphabet))                                    # the same operand tensor is rotated again
@@ -272,6 +272,13 @@ def check_default_dict(c):
     require(set(extra.keys()) == {"X", "Y", "Z", "H"}, "dict:user-keys", "create_dict(**kwargs) does not add the user's operators")
     require(bool(torch.all((R.lib_to_c(extra["H"]) - R.unitary_from_angles(*c["ang"])).abs() <= 1e-15)), "dict:user-value", "user operator altered")
     require(bool(torch.all((R.lib_to_c(extra["X"]) - R.unitary_from_angles(*c["ang2"])).abs() <= 1e-15)), "dict:user-override", "user override of X ignored")
+    # operators given as nested lists / numpy arrays instead of tensors
+    as_list = R.c_to_lib(R.unitary_from_angles(*c["ang"])).tolist()
+    d2 = UN.create_dict(H=as_list, Q=np.array(as_list))
+    for k in ("H", "Q"):
+        require(isinstance(d2[k], torch.Tensor) and d2[k].dtype == torch.double and bool(torch.all((R.lib_to_c(d2[k]) - R.unitary_from_angles(*c["ang"])).abs() <= 1e-15)),
+                "dict:user-list-form", f"user operator {k} given as nested list / ndarray is not stored as the same double tensor")
+    require(all(bool(torch.all(R.lib_to_c(extra[k]) == R.lib_to_c(d[k]))) for k in "YZ"), "dict:defaults-changed", "adding user operators changed an untouched default")
     return {}
 
 
